@@ -96,7 +96,7 @@ func contractServes(c *Contract, prop string) bool {
 			return true
 		}
 	}
-	for _, ac := range c.AtCalls {
+	for _, ac := range append(append([]*AtCall{}, c.AtCalls...), c.AtStores...) {
 		if hasTag(ac.Clause.Tags, prop) {
 			return true
 		}
@@ -135,6 +135,7 @@ func cmdBaseline(args []string) int {
 			b.Obligations = append(b.Obligations, keep[key]...)
 			continue
 		}
+		delete(keep, key)
 		rep := verifyFunction(p, c, cfg, nil)
 		fmt.Printf("== %s (%.1fs)\n", key, rep.Wall)
 		for _, e := range rep.Errors {
@@ -155,6 +156,19 @@ func cmdBaseline(args []string) int {
 			}
 			b.Obligations = append(b.Obligations, BaselineEntry{Name: r.Name, Func: key, Kind: r.Kind, Tags: tags, Status: st, Secs: round2(r.Secs), Clause: r.Src})
 		}
+	}
+	wrep := verifyWriters(p)
+	for _, e := range wrep.Errors {
+		fmt.Println("   ERROR:", e)
+	}
+	for _, r := range wrep.Results {
+		st := "unproved"
+		if r.Status == "proved" {
+			st = "proved"
+		} else {
+			fmt.Printf("   %-8s %s %s\n", r.Status, r.Name, r.FailSite)
+		}
+		b.Obligations = append(b.Obligations, BaselineEntry{Name: r.Name, Func: packageKey, Kind: r.Kind, Tags: r.Tags, Status: st, Clause: r.Src})
 	}
 	os.MkdirAll(filepath.Join(verifRoot, "baseline"), 0o755)
 	data, _ := json.MarshalIndent(b, "", " ")
@@ -284,7 +298,25 @@ func cmdCheck(args []string) int {
 			}
 		}
 	}
+	if funcs[packageKey] {
+		rep := verifyWriters(p)
+		fnames = append(fnames, packageKey)
+		for _, e := range rep.Errors {
+			anchorLost = append(anchorLost, e)
+		}
+		for _, r := range rep.Results {
+			if _, ok := want[r.Name]; ok {
+				got[r.Name] = r
+				if r.Status == "proved" {
+					byBackend[r.Backend]++
+				}
+			}
+		}
+	}
 	for k := range funcs {
+		if k == packageKey {
+			continue
+		}
 		if p.Contracts[k] == nil {
 			anchorLost = append(anchorLost, "contract for "+k+" disappeared")
 		}
